@@ -74,9 +74,9 @@ ARMS = [
     arm("TypeQ", "OpCode::TypeQ", cl1("OpCode::TypeQ", "input")), arm("Dup", "OpCode::Dup"),
 ]
 UNIT = Unit(
-    name="exec", lemma_obs=['lemma_std_sig_covenant'], uses="group_melvm_axioms",
+    name="exec", lemma_obs=['lemma_std_sig_covenant', 'lemma_step_phi', 'lemma_steps_le_weight'], uses="group_melvm_axioms",
     prelude=["core.rs", "raw.rs", "crypto.rs", "melvm_types.rs", "melvm_exec.rs", "melvm_conv.rs"],
-    lemmas=["sums.rs", "melvm_spec.rs"],
+    lemmas=["sums.rs", "melvm_spec.rs", "weight.rs", "cost.rs"],
     items=[
         TypeItem(O, "enum", "OpCode"),
         TypeItem(V, "enum", "Value"),
@@ -145,17 +145,18 @@ pub broadcast group group_melvm_axioms { axiom_u256_range, axiom_u256_ext, axiom
                               Some(m2) => res is Some && vm_of(*final(self)) == m2, None => res is None })""", "C10"),
                     C("end", "old(self).pc >= old(self).instrs@.len() ==> res is None", "C10"),
                     C("frame", "final(self).instrs == old(self).instrs", "C10")]),
-        Fn(E_, "run_to_end", impl="Executor", home="C10", implicit_props=("C09", "C10", "C04"), attrs=["#[verifier::exec_allows_no_decreases_clause]"],
+        Fn(E_, "run_to_end", impl="Executor", home="C10", implicit_props=("C09", "C10", "C04", "C11"),
            requires=[C("small", "old(self).instrs@.len() <= 0x7fff_ffff_ffff", note="A-PHYS: a program has fewer than 2^47 instructions"),
                      C("pc", "old(self).pc <= old(self).instrs@.len()")],
            ensures=[C("runs", "run_result(old(self).instrs@, vm_of(*old(self)), res)", "C10", "C04",
-                      note="partial correctness: termination of the loop is not proved here (the weight bound of C11 is not mechanised)")],
+                      note="total correctness: the loop carries the decreases measure phi (lemmas/cost.rs), so run_to_end is proved to terminate")],
            injects=[Inject("entry", "let ghost m0 = vm_of(*self); let ghost prog = self.instrs@; let ghost mut n: nat = 0; proof { assert(run_n(prog, m0, 0) == Some(m0)); }"),
                     Inject("before_tail", "let ghost last = self.stack@; proof { if hits_uncovered(prog, m0) { lemma_uncovered_any(prog, m0, if last.len() > 0 { Some(last[last.len() - 1]) } else { None::<Value> }); } }")],
            loops=[Loop(0, body_entry="""let ghost m1 = vm_of(*self); let ghost unc = hits_uncovered(prog, m0);
                            proof { if !unc && !covered(prog[m1.pc]) { assert(match run_n(prog, m0, n) { Some(m) => 0 <= m.pc < prog.len() && !covered(prog[m.pc]), None => false }); }
                                if hits_uncovered(prog, m0) { lemma_uncovered_any(prog, m0, None::<Value>); } }""",
-                       body_exit="proof { if !hits_uncovered(prog, m0) { n = n + 1; assert(run_n(prog, m0, n) == Some(vm_of(*self))); } }",
+                       body_exit="proof { if !hits_uncovered(prog, m0) { n = n + 1; assert(run_n(prog, m0, n) == Some(vm_of(*self))); } lemma_step_phi(prog, m1, vm_of(*self)); }",
+                       decreases="phi(self.instrs@, self.pc as int, self.loop_state@)",
                        invariants=[C("frame", "self.instrs@ == prog && prog.len() <= 0x7fff_ffff_ffff && prog == old(self).instrs@ && m0 == vm_of(*old(self))", "C10"),
                                    C("reach", "hits_uncovered(prog, m0) || run_n(prog, m0, n) == Some(vm_of(*self))", "C10")]),],
            ),
